@@ -2,7 +2,7 @@
    byte for byte.
 
    pingnick.ping / pingnick.flood   args = the parameters of one PING
-   pingnick.seq / pingnick.collide / pingnick.pending
+   pingnick.seq / pingnick.collide / pingnick.edge
        args = nick, callback kind, callback argument, flags, then one argument per event:
        fields separated by LF: command, source ("" = none, "=" ++ name), parameters.
        A source name or parameter that is exactly "$R" stands for the nickname the client
@@ -89,5 +89,5 @@ Definition run_C17 (suite : str) (args : list str) : option str :=
   else if streqb suite (bs "pingnick.flood") then Some (run_ping args)
   else if streqb suite (bs "pingnick.seq") then Some (run_seq args)
   else if streqb suite (bs "pingnick.collide") then Some (run_seq args)
-  else if streqb suite (bs "pingnick.pending") then Some (run_seq args)
+  else if streqb suite (bs "pingnick.edge") then Some (run_seq args)
   else None.
